@@ -124,13 +124,14 @@ def header_getter(header, rfc_section):
                 return v
 
     def fset(r, value):
-        fdel(r)
         if value is not None:
+            # refuse before anything is removed
             if not isinstance(value, str):
                 raise ValueError("Value must be text_type")
             if "\n" in value or "\r" in value:
                 raise ValueError("Header value may not contain control characters")
-
+        fdel(r)
+        if value is not None:
             r._headerlist.append((header, value))
 
     def fdel(r):
